@@ -245,6 +245,17 @@ func bundleGen(args []string) error {
 	}
 	dests := []string{"plain", "rf", "bytewise", "counting"}
 	bodyLens := []int{0, 1, 22, 23, 24, 25, 254, 255, 256, 257, 1000, 511, 512, 513, 1023, 1024, 1025, 4095, 4096, 4097}
+	// fixed instances at the two-byte / four-byte argument boundary of CBOR heads (body length, response length, offsets)
+	for bi, bl := range []int{65535, 65536, 65534, 65537, 65535 - 15, 65536 - 15} {
+		for _, ver := range []string{"b1", "b2"} {
+			b := emptyB()
+			b.Ver = ver
+			b.HasPrimary, b.Primary = true, ints([]byte("https://a.test/primary"))
+			b.Exs = append(b.Exs, bex{URL: ints([]byte("https://a.test/big")), Status: 200, Hdrs: []hent{}, Body: ints(randBytes(r, bl))},
+				bex{URL: ints([]byte("https://a.test/after")), Status: 200, Hdrs: []hent{}, Body: ints(randBytes(r, 3))})
+			wrEvent(fmt.Sprintf("fix%d%s", bi, ver), &b, dests[bi%4])
+		}
+	}
 	for i := 1; i <= n; i++ {
 		b := emptyB()
 		b.Ver = []string{"b1", "b2"}[r.Intn(2)]
